@@ -55,7 +55,30 @@ class C11(Check):
         used = set()
         r = rng.random()
         files = []
-        if r < 0.6:
+        import os
+
+        if os.environ.get("C11_FORCE_KIND") == "ff-any":  # for sensitivity experiments only
+            r = 0.0
+        if r < 0.2:
+            # any find-and-fix codemod of the registry (incl. dependency-adding ones and multi-snippet files where a name
+            # has several bindings): no sibling sub-world, perturbations biased to heap layout and hash seed
+            g = G.gen_general(rng, kinds=("ff", "ff", "ff-dep"), max_codemods=3)
+            # several snippets of ONE codemod in one file: names with several bindings / repeated imports
+            for cid in g["include"][:2]:
+                f = G.gen_py_file(rng, used, [cid], n_snip=(2, 3), rich=False)
+                if f:
+                    g["world_spec"]["files"].append(f)
+            if not g["world_spec"]["files"]:
+                return None
+            perts = [{"hashseed": 0, "sched": {"seed": 0, "policy": "fifo", "line_p": 0.0}, "enum_seed": None, "heap_shift": 0,
+                      "workers": None, "order_seed": None}]
+            for j in range(rng.randint(4, 6)):
+                perts.append({"hashseed": [0, 1, 2][j % 3] if tier == "quick" else rng.randrange(10_000),
+                              "sched": G.rand_sched(rng, len(g["world_spec"]["files"])), "enum_seed": rng.randrange(1000),
+                              "heap_shift": rng.choice([1, 7, 100, 1000, 12345, 50_000]), "workers": rng.choice([None, 2, 4]),
+                              "order_seed": rng.randrange(1000)})
+            return {"kind": "ff-any", "world_spec": g["world_spec"], "include": g["include"], "perturbations": perts}
+        if r < 0.65:
             kind = "ff"
             n = rng.randint(2, 9)
             cids = rng.sample(ff_pool(), rng.randint(1, 4))
